@@ -106,7 +106,7 @@ func runValueProperty(t *testing.T, id, check string, gen func(rt *rapid.T) valC
 		}
 		if msg != "" {
 			rec.Violation(check, msg, c)
-			rt.Fatalf("%s", msg)
+			rt.Fatalf("property violated (details in the replay file)")
 		}
 	})
 }
